@@ -120,7 +120,8 @@ Inductive qxop :=
 | QERemove (k : bytes) | QERemoveEntry (k : bytes) | QEGetMut (k suf : bytes)
 | QLen | QTRepo (u : bytes) | QTGet | QTHas | QTDel | QTCs (ops : list cop) | QTCsGet | QKeyCmp (s : bytes)
 | QTKIns (i : nat) (v : bytes) | QTKGet (i : nat) | QTKDel (i : nat)
-| QTUIns (k v : bytes) | QTUDel (k : bytes).     (* insert_typed / remove_typed of a user-written KnownQualifierKey with KEY = k *)
+| QTUIns (k v : bytes) | QTUDel (k : bytes)      (* insert_typed / remove_typed of a user-written KnownQualifierKey with KEY = k *)
+| QEAndClr (k v : bytes).                        (* entry(k).and_modify(|v| v.clear()).or_insert(v): the callback empties the value, the entry stays *)
 Inductive qxout :=
 | XoU | XoUV (v : bytes) | XoE | XoOpt (o : option bytes) | XoB (b : bool) | XoPanic
 | XoVC (v : bytes) (called : bool) | XoOcc2 (g old : bytes) | XoVac | XoVacV (v : bytes) | XoOcc (v : bytes) | XoOccKV (k v : bytes)
@@ -199,6 +200,11 @@ Definition qxstep (q : quals) (o : qxop) : quals * qxout :=
   | QTKDel i => (fst (q_remove cfg q (nth i (typed_keys cfg) [])), XoU)
   | QTUIns k v => match q_insert cfg q k v with Ok q' => (q', XoU) | Err _ => (q, XoPanic) end
   | QTUDel k => (fst (q_remove cfg q k), XoU)
+  | QEAndClr k v =>
+      match check_key cfg k with Err _ => (q, XoE) | Ok m =>
+        match search cfg q m with
+        | Found i => match nth_error q i with Some kv => (set_nth q i [], XoVC [] true) | None => (q, XoPanic) end
+        | NotFound i => (insert_at q i (into_key m, v), XoVC v false) end end
   end.
 Fixpoint qxrun (q : quals) (ops : list qxop) : quals * list qxout :=
   match ops with
